@@ -258,3 +258,42 @@ def guarded(chk, pid, thunk):
             chk.note_analysed('whole-driver symbolic execution', f'not completed on this tree ({str(ex)[:160]}); other rules report the violations')
         else:
             raise
+
+
+def build_arguments(chk, repo, rule, where='TidalPy/RadialSolver/solver.pyx'):
+    """what the executed driver hands to cf_build_solver for every layer: the layer's own slices of the five material arrays (pointer into the caller's array at the layer's
+    first slice), the slice count, the frequency / degree / G of the solve, the layer's radial span, and the flags of that layer"""
+    from ..core.interp import Arr
+    mo = repo.by_path('TidalPy/RadialSolver/derivatives/odes.pyx')
+    fb = mo.defs.get('cf_build_solver')
+    pnames = [a.arg for a in fb.args.args]
+    need = ['layer_type', 'is_static', 'is_incomp', 'num_slices', 'radius_array_ptr', 'density_array_ptr', 'gravity_array_ptr', 'bulk_modulus_array_ptr', 'shear_modulus_array_ptr',
+            'frequency_to_use', 'degree_l', 'G_to_use', 't_span']
+    missing = [n for n in need if n not in pnames]
+    if missing:
+        raise AnalysisError(f'cf_build_solver: parameters {missing} vanished')
+    d = X.Decider(seed=chk.seed + 83, k=2)
+    for kinds in (('solid', 'liquid-static', 'solid'), ('liquid', 'solid-static'), ('solid', 'solid', 'liquid')):
+        lab = ' / '.join(kinds)
+        r = SR.run_solver(repo, kinds, ('tidal',), False)
+        if r.raised is not None or len(r.build_calls) != len(kinds):
+            chk.ob(rule, f'layers {lab}: one solver is built per layer', False, f'{len(r.build_calls)} cf_build_solver calls for {len(kinds)} layers (raised: {getattr(r.raised, "text", None)})', where, key=f'{rule}|{lab}|count'); continue
+        bad = []
+        for li, (kd, args) in enumerate(zip(kinds, r.build_calls)):
+            a = dict(zip(pnames, args))
+            first = li * r.ns
+            for pn, arr in (('radius_array_ptr', 'radius'), ('density_array_ptr', 'density'), ('gravity_array_ptr', 'gravity'), ('bulk_modulus_array_ptr', 'bulk'), ('shear_modulus_array_ptr', 'shear')):
+                v = a[pn]
+                if not (isinstance(v, Arr) and v.base is r.arrays[arr].base and v.offset == first):
+                    bad.append(f'layer {li}: {pn} is ' + (f'{v.base.name}[{v.offset}:]' if isinstance(v, Arr) else type(v).__name__) + f', expected {arr}_array[{first}:]')
+            if a['num_slices'] != r.ns: bad.append(f'layer {li}: num_slices = {a["num_slices"]}, the layer has {r.ns}')
+            if a['layer_type'] != SR.KIND[kd][0] or bool(a['is_static']) != SR.KIND[kd][1]: bad.append(f'layer {li}: flags ({a["layer_type"]}, {a["is_static"]}) are not those of a {kd} layer')
+            if not (isinstance(a['frequency_to_use'], X.Node) and d.equal(a['frequency_to_use'], r.sym['w'])): bad.append(f'layer {li}: frequency is not the forcing frequency')
+            if not (isinstance(a['degree_l'], X.Node) and d.equal(X.lift(a['degree_l']), r.sym['l'])): bad.append(f'layer {li}: degree is not the requested degree')
+            if not (isinstance(a['G_to_use'], X.Node) and d.equal(a['G_to_use'], X.atom('Gconst', 'pos'))): bad.append(f'layer {li}: G is not the gravitational constant of the solve')
+            span = a['t_span']
+            r0, r1 = r.inputs['radius'][first], r.inputs['radius'][first + r.ns - 1]
+            if not (isinstance(span, tuple) and len(span) == 2 and d.equal(X.lift(span[0]), r0) and d.equal(X.lift(span[1]), r1)):
+                bad.append(f'layer {li}: radial span is not (bottom radius, top radius) of the layer')
+        chk.ob(rule, f'layers {lab}: cf_build_solver receives, for every layer, that layer\'s slices of the five material arrays, its slice count, flags and radial span, and the frequency / degree / G of the solve',
+               not bad, '; '.join(bad[:4]), where, key=f'{rule}|{lab}', method='recorded arguments of the whole-function symbolic execution')
